@@ -285,7 +285,7 @@ func isSchedulePredicate(f *ssa.Function) bool {
 		}
 		if len(absent.Instrs) > 0 {
 			if ret, ok := absent.Instrs[len(absent.Instrs)-1].(*ssa.Return); ok && len(ret.Results) == 1 {
-				if v, isC := isConstBool(ret.Results[0]); isC && !v {
+				if v, isC := isConstBool(resolveSpill(ret.Results[0])); isC && !v {
 					okShape = true
 				}
 			}
